@@ -33,6 +33,12 @@ class PublishRules(Rule):
             if rq is None or rq.kind != "publish" or not rq.accepted or not rq.qos:
                 continue
             if not ok:
+                cause = (d.kind == "lost" and d.lost_conn is not None and d.lost_conn.addr == rq.addr) or \
+                        any(fx["tag"] == "connack-ok" for fx in d.connacks if d.conn is not None and d.conn.addr == rq.addr and d.conn.clean)
+                if not cause:
+                    L.violate("C05", "P1", "failed-without-cause:%s" % d.kind,
+                              "publish rid=%d on %s failed (%s) in a %s dispatch that is neither a loss of that address nor a clean-session CONNACK"
+                              % (rid, rq.addr, val[0] if val else "?", d.kind))
                 continue
             if rq.qos == 1:
                 if rq.ack1 != d.seq:
